@@ -135,6 +135,8 @@ ExpandMath(h) ==
                   \cup { <<1, Un("not", HB)>> } \cup { <<2, Bool("and", HB, HB)>> }
     [] h = "N" -> { <<0, Bin(o, nC, ff)>> : o \in {"div", "mul", "add"}, ff \in {FL("2.0"), FL("0.5"), FL("-0.5")} }
                   \cup { <<0, Bin("sub", FL("1.5"), nC)>>, <<0, Bin("div", mC, FL("2.0"))>> }
+                  \* a literal midpoint as the direct argument (constant folding with another rounding rule shows)
+                  \cup { <<0, FL(x)>> : x \in {"2.5", "0.5", "-2.5", "1.5", "-0.5"} }
     [] h = "I" -> { <<0, nC>>, <<0, mC>>, <<0, IntL(-2)>>, <<0, Bin("sub", nC, mC)>> }
 ExpandFns(h) ==
   CASE h = "B" -> { <<0, Cmp(o, HI, IntL(k))>> : o \in {"eq", "gt"}, k \in {1, 2020} }
